@@ -1,7 +1,7 @@
 #!/bin/bash
 # tools/import_seeded.sh Cxx  — copy /tmp/mut/out-Cxx/<n>/ into /verif/seeded/Cxx-<k>/ (next free k), print the new names
-p=$1
-for d in /tmp/mut/out-$p/*/; do
+p=$1; src=${2:-/tmp/mut/out-$p}
+for d in $src/*/; do
   [ -f "$d/patch.diff" ] || continue
   k=1; while [ -e /verif/seeded/$p-$k ]; do k=$((k+1)); done
   mkdir -p /verif/seeded/$p-$k
